@@ -62,6 +62,8 @@ inductive SaExpr
   | func (name : String) (args : List SaExpr) (ty : Ty)
   | subq (name : String) (ty : Ty)                   -- select(col).scalar_subquery()
   | inlist (vals : List Lit) (ty : Ty) (expandOp : Op) -- expanding BindParameter of IN
+  | inrows (rows : List (List Lit)) (arity : Nat) (expandOp : Op) -- same, TupleType
+  | tuple_ (es : List SaExpr)                        -- Tuple
   | absent                                           -- Python `None` (missing value=/else_=)
   deriving Repr, Inhabited
 
@@ -84,6 +86,8 @@ def tyOf : SaExpr → Ty
   | func _ _ ty => ty
   | subq _ ty => ty
   | inlist _ ty _ => ty
+  | inrows _ _ _ => .null
+  | tuple_ _ => .null
   | absent => .null
 
 /-- `getattr(x, "operator", None)` (Grouping proxies attribute access to its element) -/
@@ -155,6 +159,8 @@ def selfGroup (against : Option Op) (e : SaExpr) : SaExpr :=
     | .grouping _ => e
     | .subq _ _ => e
     | .inlist _ _ _ => e
+    | .inrows _ _ _ => e
+    | .tuple_ _ => e
     | .absent => e
     | _ => columnSelfGroup against e
 
@@ -247,6 +253,7 @@ def columnNegate (e : SaExpr) : SaExpr :=
 def negateInBinary (r : SaExpr) (negatedOp originalOp : Op) : SaExpr :=
   match r with
   | .inlist vs ty eo => if eo = originalOp then .inlist vs ty negatedOp else r
+  | .inrows rows n eo => if eo = originalOp then .inrows rows n negatedOp else r
   | _ => r
 
 /-- `expr._negate()` dispatched on the element class (`~expr`, `not_(expr)`) -/
@@ -364,6 +371,7 @@ inductive U
   | coalesce (cs : List U)
   | subq (name : String) (ty : Ty)
   | inOp (negated : Bool) (vals : List Lit) (x : U)
+  | tupleIn (negated : Bool) (rows : List (List Lit)) (xs : List U)
   | absent
   deriving Repr, Inhabited
 
@@ -462,6 +470,13 @@ def build : U → Option SaExpr
       let op := if negated then Op.not_in_op else Op.in_op
       booleanCompare x' op (.inlist vals (inListTy x' vals) op) (negateOp op) none
     | none => none
+  | .tupleIn negated rows xs =>
+    match buildList xs with
+    | some es =>
+      let op := if negated then Op.not_in_op else Op.in_op
+      booleanCompare (.tuple_ (es.map (selfGroup (some .comma_op)))) op
+        (.inrows rows es.length op) (negateOp op) none
+    | none => none
   | .absent => some .absent
 
 def buildList : List U → Option (List SaExpr)
@@ -556,15 +571,52 @@ def lowerG (g : G) : G := G.br (.fn "lower") g
 def litListG (d : Dialect) (lb : Bool) (vs : List Lit) : G :=
   chain .comma ", " (vs.map (fun v => G.atom (renderLit d lb v)))
 
-/-- `visit_empty_set_expr` / `visit_empty_set_op_expr` for a one-column empty IN list: the
-    text that replaces the parameter *inside* the parentheses of `IN (…)` -/
-def emptySetText (d : Dialect) (expandOp : Op) : String :=
-  match d with
-  | .sqlite => "SELECT 1 FROM (SELECT 1) WHERE 1!=1"
-  | _ =>
-    if expandOp = .not_in_op then "NULL) OR (1 = 1"
-    else if expandOp = .in_op then "NULL) AND (1 != 1"
-    else "<empty set>"
+def intAtom (i : Int) : G := G.atom ⟨toString i, .int i⟩
+def nullAtom : G := G.atom ⟨"NULL", .null⟩
+
+def commaList (gs : List G) : G := chain .comma ", " gs
+
+def replicateG (n : Nat) (g : G) : List G := (List.range n).map (fun _ => g)
+
+/-- what replaces an expanding IN parameter under `literal_binds`
+    (`_literal_execute_expanding_parameter_literal_binds`, `visit_empty_set_op_expr`,
+    `visit_empty_set_expr`), *including* the operator text the empty-set trick appends:
+    `core rhs` is `left IN (rhs)`; the result is the whole `left IN (…) [AND (1 != 1)]` -/
+def inG (d : Dialect) (lb : Bool) (core : G → G) : SaExpr → Option G
+  | .inlist vs _ eo =>
+    if vs.isEmpty then
+      if d = .sqlite then
+        some (core (G.br .paren (G.atom ⟨"SELECT 1 FROM (SELECT 1) WHERE 1!=1", .emptySet⟩)))
+      else if eo = .not_in_op then
+        some (G.inf .or_ " OR " (core (G.br .paren nullAtom))
+          (G.br .paren (G.inf .eq " = " (intAtom 1) (intAtom 1))))
+      else if eo = .in_op then
+        some (G.inf .and_ " AND " (core (G.br .paren nullAtom))
+          (G.br .paren (G.inf .ne " != " (intAtom 1) (intAtom 1))))
+      else none
+    else some (core (G.br .paren (litListG d lb vs)))
+  | .inrows rows n eo =>
+    if rows.isEmpty then
+      if d = .sqlite then
+        let ones := ", ".intercalate ((List.range n).map (fun _ => "1"))
+        -- tuple_in_values: the literal path prepends VALUES even to the empty-set SELECT
+        some (core (G.br .paren (G.atom
+          ⟨"VALUES SELECT " ++ ones ++ " FROM (SELECT " ++ ones ++ ") WHERE 1!=1", .emptySet⟩)))
+      else
+        let nulls := G.br .paren (commaList (replicateG n nullAtom))
+        if eo = .not_in_op then
+          some (G.inf .or_ " OR " (core (G.br .paren nulls))
+            (G.br .paren (G.inf .eq " = " (intAtom 1) (intAtom 1))))
+        else if eo = .in_op then
+          some (G.inf .and_ " AND " (core (G.br .paren nulls))
+            (G.br .paren (G.inf .ne " != " (intAtom 1) (intAtom 1))))
+        else none
+    else
+      let rowGs := rows.map (fun r => G.br .paren (litListG d lb r))
+      if d = .sqlite then
+        some (core (G.br .paren (G.pre .values "VALUES " (commaList rowGs))))
+      else some (core (G.br .paren (commaList rowGs)))
+  | _ => none
 
 /-- `visit_like_op_binary` & co.: `l LIKE r [ESCAPE 'c']` -/
 def likeG (d : Dialect) (s : Sym) (t : String) (l r : G) (esc : Option String) : G :=
@@ -628,9 +680,14 @@ def render (d : Dialect) (lb : Bool) : SaExpr → G
       else likeG d .notLike " NOT LIKE " (lowerG (render d lb l)) (lowerG (render d lb r)) esc
     | .between_op => betweenG .between " BETWEEN " (render d lb l) (render d lb r)
     | .not_between_op => betweenG .notBetween " NOT BETWEEN " (render d lb l) (render d lb r)
-    | .in_op => G.inf .in_ (opText .in_op) (render d lb l) (render d lb r)
+    | .in_op =>
+      match inG d lb (fun rhs => G.inf .in_ (opText .in_op) (render d lb l) rhs) r with
+      | some g => g
+      | none => G.inf .in_ (opText .in_op) (render d lb l) (render d lb r)
     | .not_in_op =>
-      G.br .paren (G.inf .notIn (opText .not_in_op) (render d lb l) (render d lb r))
+      match inG d lb (fun rhs => G.inf .notIn (opText .not_in_op) (render d lb l) rhs) r with
+      | some g => G.br .paren g
+      | none => G.br .paren (G.inf .notIn (opText .not_in_op) (render d lb l) (render d lb r))
     | _ => G.inf (symOf op) (opText op) (render d lb l) (render d lb r)
   | .clist op cs _ _ _ =>
     if op = .concat_op ∧ (d = .mysql ∨ d = .mariadb) then
@@ -665,9 +722,9 @@ def render (d : Dialect) (lb : Bool) : SaExpr → G
       if wouldGroup none e then G.br .paren (render d lb e) else render d lb e
   | .func name args _ => G.br (.fn name) (chain .comma ", " (renderList d lb args))
   | .subq n _ => G.atom ⟨"(SELECT " ++ n ++ ")", .col n⟩
-  | .inlist vs _ eo =>
-    if vs.isEmpty then G.br .paren (opaqueG (emptySetText d eo))
-    else G.br .paren (litListG d lb vs)
+  | .inlist vs _ _ => G.br .paren (litListG d lb vs)
+  | .inrows rows _ _ => G.br .paren (commaList (rows.map (fun r => G.br .paren (litListG d lb r))))
+  | .tuple_ es => G.br .paren (chain .comma ", " (renderList d lb es))
   | .absent => opaqueG ""
 
 def renderList (d : Dialect) (lb : Bool) : List SaExpr → List G
